@@ -216,9 +216,154 @@ def eval_malformed(case):
             "outcome": "accepted"}
 
 
+# ---------------------------------------------------------------------------------------------------------
+# life cycle of ONE forecaster object (explicit-state search over call histories, as C10 does for reservoirs)
+
+LC_OPS = ["fitA", "fitB", "fitA@tau", "fitB@tau", "fitNaN", "setBounds", "fc", "fc(M)", "fc(tau)"]
+LC_T = np.array([0.0, 0.3, 2.0, 9.0, 40.0, 2500.0])
+
+
+def _lc_data(rf):
+    tA, tB = window(3.0, 3.0, 50), window(900.0, 2.0, 60)
+    return {"A": (tA, 300.0 * np.asarray(rf(tA / 3.0), dtype=float)), "B": (tB, 2e-3 * np.asarray(rf(tB / 900.0), dtype=float))}
+
+
+def _lc_bounds(kind):
+    from bluebonnet.forecast import Bounds  # noqa: PLC0415
+
+    return Bounds(M=(1.0, 250.0), tau=(0.5, 2000.0)) if kind == "finite" else None
+
+
+def _lc_new(rf, kind):
+    from bluebonnet.forecast import ForecasterOnePhase  # noqa: PLC0415
+
+    b = _lc_bounds(kind)
+    return ForecasterOnePhase(rf, b) if b is not None else ForecasterOnePhase(rf)
+
+
+def _lc_apply(fc, op, data, st):
+    """Apply one op; returns the observation.  `st` tracks which Bounds variant the harness assigned last."""
+    try:
+        if op == "setBounds":  # the public dataclass field is reassigned on the live object (toggle default <-> finite)
+            st["bounds"] = "finite" if st["bounds"] == "default" else "default"
+            from bluebonnet.forecast import ForecasterOnePhase  # noqa: PLC0415
+
+            fc.bounds = _lc_bounds(st["bounds"]) or ForecasterOnePhase(fc.rf_curve).bounds
+            return ("set", st["bounds"])
+        if op.startswith("fit"):
+            t, q = data[op[3]]
+            if op == "fitNaN":  # a fit that must fail: non-finite production (curve_fit rejects it) - and leave no trace
+                q = data["A"][1].copy()
+                q[7] = np.nan
+                t = data["A"][0]
+            kw = {"tau": 5.0 if op[3] == "A" else 2000.0} if op.endswith("@tau") else {}
+            fc.fit(t.copy(), q.copy(), **kw)
+            return ("fit", float(fc.M_), float(fc.tau_))
+        if op == "fc":
+            return ("val", np.asarray(fc.forecast_cum(LC_T.copy()), dtype=float))
+        if op == "fc(M)":
+            return ("val", np.asarray(fc.forecast_cum(LC_T.copy(), M=7.0), dtype=float))
+        if op == "fc(tau)":
+            return ("val", np.asarray(fc.forecast_cum(LC_T.copy(), tau=11.0), dtype=float))
+    except Exception as e:  # noqa: BLE001 - whether a call raises is part of the observation
+        return ("raise", type(e).__name__)
+    raise KeyError(op)
+
+
+def eval_lifecycle(case):
+    """Every history over LC_OPS up to the depth bound on one forecaster.  Oracle on every transition: the fitted pair
+    after the latest successful fit equals (1e-13) what a FRESH forecaster, constructed with the bounds current at that
+    fit, obtains from that fit alone; a failed fit changes nothing; every forecast equals M x rf(t / tau) with the explicit
+    arguments where given and the latest fitted values otherwise; forecasts before the first fit raise."""
+    from .. import history  # noqa: PLC0415
+
+    rf = curve(case["curve"])
+    data = _lc_data(rf)
+
+    def build(hist):
+        st = {"bounds": "default", "reads": set()}
+        fc = _lc_new(rf, "default")
+        obs = []
+        for op in hist:
+            obs.append(_lc_apply(fc, op, data, st))
+            if op.startswith("fc") and obs[-1][0] == "val":
+                st["reads"].discard((op, "before-latest-fit"))
+                st["reads"].add((op, "since-latest-fit"))
+            elif obs[-1][0] == "fit":  # what was forecast under the previous fitted pair is remembered as such
+                st["reads"] = {(o, "before-latest-fit") for o, _ in st["reads"]}
+        return (fc, st), obs
+
+    def canon(pair):
+        # the fitted pair and the assigned bounds, PLUS which kinds of forecast have been requested so far: a forecast
+        # is a pure read for a correct forecaster, but merging "has forecast (under the previous / the current fitted pair)" with "has not" would hide exactly the
+        # hidden state this search is after (a forecast memo that survives the next fit, wherever it is kept)
+        fc, st = pair
+        d = vars(fc)
+        return (st["bounds"], repr(d.get("M_")), repr(d.get("tau_")), tuple(sorted(st["reads"])))
+
+    ref_fit = {}
+
+    def reference(op, bounds):
+        if (op, bounds) not in ref_fit:
+            f2 = _lc_new(rf, bounds)
+            ref_fit[(op, bounds)] = _lc_apply(f2, op, data, {"bounds": bounds, "reads": set()})
+        return ref_fit[(op, bounds)]
+
+    def expected_state(hist):
+        """(M, tau) the object must hold after hist, from fresh objects; None before the first successful fit."""
+        b, cur = "default", None
+        for op in hist:
+            if op == "setBounds":
+                b = "finite" if b == "default" else "default"
+            elif op.startswith("fit"):
+                r = reference(op, b)
+                if r[0] == "fit":
+                    cur = (r[1], r[2])
+        return cur
+
+    def close(a, b):
+        return a == b or abs(a - b) <= 1e-13 * max(abs(a), abs(b))
+
+    def check_transition(hist, op):
+        full = hist + [op]
+        (fc, st), obs = build(full)
+        got = obs[-1]
+        c = dict(case, history=full)
+        want = expected_state(full)
+        out = []
+        d = vars(fc)
+        have = (float(d["M_"]), float(d["tau_"])) if "M_" in d and "tau_" in d else None
+        if (have is None) != (want is None) or (have and not (close(have[0], want[0]) and close(have[1], want[1]))):
+            out.append(V("lifecycle/fitted-values", f"after {full} the forecaster holds (M_, tau_) = {have}; a fresh forecaster "
+                         f"that runs only the latest successful fit (with the bounds current at that fit) obtains {want}", case=c))
+            return out
+        if op == "fitNaN" and got[0] != "raise":
+            out.append(V("lifecycle/failed-fit-accepted", f"after {hist}, a fit on production containing NaN was accepted: {got}", case=c))
+        if op.startswith("fc"):
+            if want is None:
+                if got[0] != "raise" and op != "fc(M)" and op != "fc(tau)":
+                    out.append(V("lifecycle/forecast-before-fit", f"forecast_cum with default arguments before any fit returned {got}", case=c))
+            else:
+                M = 7.0 if op == "fc(M)" else want[0]
+                tau = 11.0 if op == "fc(tau)" else want[1]
+                ref = M * np.asarray(rf(LC_T / tau), dtype=float)
+                if got[0] != "val" or not np.all(np.abs(got[1] - ref) <= 4 * np.finfo(float).eps * np.abs(ref) + 1e-300):
+                    out.append(V("lifecycle/forecast", f"after {full}: forecast_cum = {got[1] if got[0] == 'val' else got}; "
+                                 f"M x rf(t / tau) with M = {M!r}, tau = {tau!r} gives {ref}", case=c))
+        return out
+
+    def check_state(hist):
+        return []
+
+    stats, viol = history.bfs(build, LC_OPS, check_transition, check_state, case["depth"], canon=canon)
+    viol.sort(key=lambda v: len(v["case"]["history"]))
+    return {"violations": viol[:3], "outcome": f"lifecycle:{stats['states']}", "key": ("lc", case["curve"], case["depth"]),
+            "lc": {k: stats[k] for k in ("states", "transitions", "depth_reached", "frontier_closed_before_bound")}}
+
+
 def evaluate(case):
     return {"scaling": eval_scaling, "roundtrip": eval_roundtrip, "guess": eval_guess,
-            "malformed": eval_malformed}[case["kind"]](case)
+            "malformed": eval_malformed, "lifecycle": eval_lifecycle}[case["kind"]](case)
 
 
 def cases(tier, seed):
@@ -258,6 +403,7 @@ def cases(tier, seed):
                                     [(1e-10, np.inf), (0.5, 4.0), (3.0, np.inf), (-1.0, 6.0)]):
         for gM, gT in itertools.product(["below", "inside", "above", "inf"], repeat=2):
             out.append({"kind": "guess", "M": list(Mb), "tau": list(Tb), "gM": gM, "gT": gT})
+    out += [{"kind": "lifecycle", "curve": c, "depth": 7 if thorough else 4} for c in curves]
     good = [1.0, 2.0]
     for bad in ([], [1.0], [1.0, 2.0, 3.0], [2.0, 1.0], [1.0, 1.0], [np.inf, np.inf], [0.0, 0.0]):
         out.append({"kind": "malformed", "M": bad, "tau": good})
@@ -276,7 +422,8 @@ def run(ctx):
                 "guess positions x one- and two-parameter forms; malformed bounds: 14; non-trivial = distinct "
                 "(kind, parameters) case that was actually fitted or evaluated",
         "samples": samples_of(cs),
-        "by_kind": {k: sum(1 for c in cs if c["kind"] == k) for k in ("scaling", "roundtrip", "guess", "malformed")},
+        "by_kind": {k: sum(1 for c in cs if c["kind"] == k) for k in ("scaling", "roundtrip", "guess", "malformed", "lifecycle")},
+        "lifecycle": [dict(r["lc"], curve=c["curve"]) for c, r in zip(cs, res) if "lc" in r],
     }
     return ctx.finish("exploration", cov, [
         "round trip demanded for windows ending in [0.6 tau, 3 tau] with >= 50 samples, to 1e-3",
